@@ -47,6 +47,8 @@ def run(ctx):
     ss += S.generate(ctx, 4 if ctx.quick else 16, 2, max_e=4, max_loops=3, routings_per_graph=4, names=["tadpole_pair", "rose3"], mass_mode="all")
     # vacuum graphs with some but not all edges massive
     ss += S.generate(ctx, 0, 3, routings_per_graph=1, kinds=("uniform",), special=("vacuum_mixed",) * (4 if ctx.quick else 16))
+    # disconnected graphs (a product of integrals): loops = E - V + components
+    ss += S.generate(ctx, 0, 3, routings_per_graph=1, kinds=("uniform",), special=("disconnected",) * (4 if ctx.quick else 16))
     # raised propagators: Gamma(dod) and prod Gamma(w) beyond 1e100, the normalisation itself an ordinary number
     from .. import oracle as O_
     big = []
